@@ -261,6 +261,27 @@ def _resolve_upvars(prog, b, t):
     return lib.resolve_upvars(prog, b, t)
 
 
+def r_class_roundtrip(rep, prog):
+    """The class of a tree entry is stored in a 3-bit field through Class::into_bits / from_bits: both must be the identity, or a
+    class written into an entry is read back (and reported) as another class."""
+    rule = "R-CLASS-ROUNDTRIP"
+    rep.rule(rule, "Class::from_bits(bits) == Class(bits) and Class::into_bits(c) == c.0 (no masking or remapping)")
+    ok = True
+    detail = []
+    for fn, want in (("llfree::Class::from_bits", ("agg", "adt:llfree::Class::Class", (("p", "bits"),))),
+                     ("llfree::Class::into_bits", ("f", ("p", "self"), 0))):
+        b = prog.body(fn)
+        if b is None:
+            rep.check(True, rule, fn, "undecided: %s not present" % fn)
+            continue
+        rep.saw(fn)
+        tm = T.Terms(b, prog)
+        rets = [T.canon(T.strip_casts(tm.call_term(bi) if si == "term" else tm.rvalue(rv))) for bi, si, rv in lib.assignments_to_return(b)]
+        good = rets == [want]
+        rep.check(good, rule, fn, "identity", "%s is not the identity on the class number (%s): classes are aliased when they are read "
+                  "back from a tree entry" % (fn, rets), b.span)
+
+
 def run(rep, programs):
     prog = programs["core"]
     rule = "R-CLASS-PROV"
@@ -274,3 +295,4 @@ def run(rep, programs):
     rep.floor(rule, "class-selecting sites behind a policy verdict", n, 5)
     layer2(rep, prog, rule)
     layer3(rep, prog, rule)
+    r_class_roundtrip(rep, prog)
